@@ -153,7 +153,9 @@ def likeTrArms : List Nat → Bool → Bool → List String
     let next : Bool := !esc && c == 92
     if inList then
       if c = 93 ∧ esc = false then "lr:list-close" :: likeTrArms rest false next
-      else if c = 93 then "lr:list-escaped-bracket" :: likeTrArms rest true next
+      else if esc then
+        (if c = 93 then "lr:list-escaped-bracket" else if regexEscapes c then "lr:list-esc-special" else "lr:list-esc-plain")
+          :: likeTrArms rest true next
       else if isRegexMeta c then "lr:list-meta" :: likeTrArms rest true next
       else (if c = 92 then "lr:list-backslash" else "lr:list-other") :: likeTrArms rest true next
     else if esc then
@@ -164,6 +166,23 @@ def likeTrArms : List Nat → Bool → Bool → List String
     else if c = 37 then "lr:percent" :: likeTrArms rest false next
     else if c = 95 then "lr:underscore" :: likeTrArms rest false next
     else (if c = 92 then "lr:backslash" else "lr:plain") :: likeTrArms rest false next
+
+def chClass (c : Nat) : String :=
+  if c = 92 then "bs" else if c = 93 then "rbr" else if c = 91 then "lbr" else if c = 37 then "pct"
+  else if c = 95 then "und" else if c = 94 then "caret" else if c = 45 then "dash"
+  else if isRegexMeta c then "meta" else "plain"
+
+/-- the state space of the `like_to_regex` loop: in-list × how the previous character left the
+`escaped` flag (start / after an unescaped backslash / after an escaped backslash / other) × class
+of the current character -/
+def likeStateArms : List Nat → Bool → Bool → String → List String
+  | [], _, _, _ => []
+  | c :: rest, inList, esc, prev =>
+    let next : Bool := !esc && c == 92
+    let inNext : Bool :=
+      if inList then !(c = 93 ∧ esc = false) else (!esc && c == 91)
+    let prevNext := if c = 92 then (if esc then "bsesc" else "bsraw") else "other"
+    s!"ls:{if inList then "in" else "out"}-{prev}-{chClass c}" :: likeStateArms rest inNext next prevNext
 
 def hasInfix (pat : List Nat) : List Nat → Bool
   | [] => pat.isEmpty
@@ -272,7 +291,7 @@ def traceElem : Nat → List Element → List Nat → Element → List String
             [s!"bit:{vClass a}-{vClass b}:{resClass res}"]
           | .like, [a, b] =>
             (match strOf (convertV a .string), strOf (convertV b .string) with
-             | some _, some p => [s!"like:{vClass a}-{vClass b}"] ++ likeTrArms p false false ++ likeParseArms p
+             | some _, some p => [s!"like:{vClass a}-{vClass b}"] ++ likeTrArms p false false ++ likeStateArms p false false "start" ++ likeParseArms p
              | _, _ => [s!"like:nonstring:{vClass a}-{vClass b}"])
           | .cast, [_, b] =>
             (match b with
@@ -364,8 +383,8 @@ def dstep (elems : List Element) (toks : List String) : List Element × String :
     | some bs =>
       let r := likeToRegex bs
       match parseRegex r with
-      | .ok _ _ => (elems, withArms ("ok s" ++ bytesToHex r) (likeTrArms bs false false ++ likeParseArms bs))
-      | .error => (elems, withArms "ok -" (likeTrArms bs false false ++ likeParseArms bs))
+      | .ok _ _ => (elems, withArms ("ok s" ++ bytesToHex r) (likeTrArms bs false false ++ likeStateArms bs false false "start" ++ likeParseArms bs))
+      | .error => (elems, withArms "ok -" (likeTrArms bs false false ++ likeStateArms bs false false "start" ++ likeParseArms bs))
       | .unsupported => (elems, "ok unsupported")
     | none => (elems, "bad-op")
   | _ => (elems, "bad-op")
